@@ -187,6 +187,9 @@ def spec_op(F, op, pr, a):
         hp = lambda o: F.AND([F.IMP(-match[i], F.eqc(o[i], 0)) for i in range(n)] +
                              [F.IMP(unique, F.AND([F.eq(o[i], outs[i]) for i in range(n)]))])
         return dict(ok=ok, outs=outs, sound=lambda o: F.AND(ok, hp(o)), honest_pred=lambda o: F.AND(unique, hp(o)))
+    if op == "commit":
+        # the commitment value is whatever the backend injects: no functional meaning for the circuit
+        return dict(ok=F.T, outs=[F.fresh()], sound=lambda o: F.T)
     if op == "bitslice":
         # std/math/bitslice.Partition: v = lower + 2^split*upper, lower < 2^split, upper < 2^(k-split),
         # k = nbDigits if given, the field's bit length otherwise; v is the canonical representative
